@@ -28,6 +28,9 @@ ASSUMPTIONS = {
     "A7": "A7: library facts read once from the installed Amaranth 0.5.10 and not re-derived: lib.cdc.FFSynchronizer refuses "
           "stages < 2; Signal.like copies the init of its model; a bare 0 in Cat() is one bit wide; assignment truncates or "
           "zero-extends to the target's width",
+    "A8": "A8: a loop over zip(A, B, ...) of whole attribute chains of the component (self.pins, self._mode.f.pin, ...) is read as "
+          "visiting position k of each; zip() stops at the shortest, so this assumes the zipped sequences are equally long (they "
+          "are created with the same count by the constructor; the count itself is checked where a rule depends on it)",
 }
 
 
